@@ -298,6 +298,22 @@ pub fn dec_answer<T: Cat>(bs: &[u8]) -> (String, Option<(T, usize)>) {
 	}
 }
 
+/// Where a slice stands after a decode - also after a FAILED one (`impl Input for &[u8]` advances
+/// only on a successful read, so a caller can fall back to another layout from the same input).
+pub fn decpos_emit<T: Cat>(ctx: &mut Ctx, stream: &str, name: &str, bs: &[u8]) {
+	let r = catch_unwind(AssertUnwindSafe(|| {
+		let mut s = &bs[..];
+		let ok = T::decode(&mut s).is_ok();
+		(ok, s.len())
+	}));
+	let ans = match r {
+		Ok((true, rem)) => format!("ok {}", rem),
+		Ok((false, rem)) => format!("err {}", rem),
+		Err(_) => "panic".into(),
+	};
+	ctx.emit(stream, name, &format!("decpos {} {}", T::ty(bs.len() + 1), hex_or_dash(bs)), &ans);
+}
+
 pub fn enc_answer<T: Encode + ?Sized>(v: &T) -> (String, Option<Vec<u8>>) {
 	match catch_unwind(AssertUnwindSafe(|| v.encode())) {
 		Ok(b) => (hex_or_dash(&b), Some(b)),
@@ -463,6 +479,9 @@ pub fn run_type<T: Cat + DecodeAll + DecodeLimit>(ctx: &mut Ctx, stream: &str, n
 				let m = mutate(&mut g.rng, &v.encode(), &w.encode(), !o.zero_width_elems);
 				let (ans, _) = dec_answer::<T>(&m);
 				ctx.emit("mut", name, &format!("dec {} {}", T::ty(m.len() + 1), hex_or_dash(&m)), &ans);
+				if ans == "err" {
+					decpos_emit::<T>(ctx, "mut-pos", name, &m);
+				}
 			}
 		},
 		"rand" => {
@@ -505,6 +524,7 @@ pub fn run_type<T: Cat + DecodeAll + DecodeLimit>(ctx: &mut Ctx, stream: &str, n
 					let cut = &bs[..i];
 					let (ans, _) = dec_answer::<T>(cut);
 					ctx.emit("cut", name, &format!("dec {} {}", T::ty(cut.len() + 1), hex_or_dash(cut)), &ans);
+					decpos_emit::<T>(ctx, "cut-pos", name, cut);
 					// oracle (C14): a strict prefix of an encoding never decodes
 					if ans != "err" {
 						ctx.oracle_fail("C14", format!("{}: strict prefix {} of {} decoded: {}", name, hex_or_dash(cut), hex(&bs), &ans[..ans.len().min(60)]));
@@ -882,6 +902,42 @@ fn big_for<T: Cat + Clone, C: Cat + FromIterator<T>>(ctx: &mut Ctx, name: &str) 
 				}
 			},
 			None => ctx.oracle_fail("C02", format!("{}: decode(encode(v)) failed for {} elements", name, n)),
+		}
+		// the same bytes through inputs that cannot report their remaining length (chunk after chunk
+		// is read): same value, same number of bytes consumed; and two encodings in a row decode in turn
+		{
+			let mut two = v.encode();
+			let one_len = two.len();
+			two.extend_from_slice(&v.encode());
+			two.push(0xa5);
+			let r = catch_unwind(AssertUnwindSafe(|| {
+				let mut u = UnknownLenInput { data: &two, pos: 0 };
+				let a = C::decode(&mut u).ok().map(|x| val_string(&x, true));
+				let p1 = u.pos;
+				let b = C::decode(&mut u).ok().map(|x| val_string(&x, true));
+				(a, p1, b, u.pos)
+			}));
+			let want = val_string(&v, true);
+			match r {
+				Ok((Some(a), p1, Some(b), p2)) if a == want && b == want && p1 == one_len && p2 == 2 * one_len => {},
+				Ok((a, p1, b, p2)) => ctx.oracle_fail("C08", format!("{}: two encodings of {} elements in a row through an input of unknown length: first ok={} consumed {} (encoding is {} bytes), second ok={} consumed {}", name, n, a.is_some(), p1, one_len, b.is_some(), p2 - p1)),
+				Err(_) => ctx.oracle_fail("C03", format!("{}: decoding {} elements from an input of unknown length panicked", name, n)),
+			}
+			#[cfg(feature = "codec-std")]
+			{
+				let r = catch_unwind(AssertUnwindSafe(|| {
+					let mut io = parity_scale_codec::IoReader(std::io::Cursor::new(&two[..]));
+					let a = C::decode(&mut io).ok().map(|x| val_string(&x, true));
+					let p1 = io.0.position() as usize;
+					let b = C::decode(&mut io).ok().map(|x| val_string(&x, true));
+					(a, p1, b, io.0.position() as usize)
+				}));
+				match r {
+					Ok((Some(a), p1, Some(b), p2)) if a == want && b == want && p1 == one_len && p2 == 2 * one_len => {},
+					Ok((a, p1, b, p2)) => ctx.oracle_fail("C08", format!("{}: two encodings of {} elements in a row through IoReader: first ok={} consumed {} (encoding is {} bytes), second ok={} consumed {}", name, n, a.is_some(), p1, one_len, b.is_some(), p2 - p1)),
+					Err(_) => ctx.oracle_fail("C03", format!("{}: decoding {} elements from IoReader panicked", name, n)),
+				}
+			}
 		}
 		// truncated by one byte: must fail (C14) and must not panic (C03)
 		let cut = &bs[..bs.len() - 2];
